@@ -4750,7 +4750,7 @@ func (t *Terminal) Loop() error {
 									line := eachLine.line
 									err := eachLine.err
 									if len(line) > 0 {
-										clearIndex := strings.Index(line, clearCode)
+										clearIndex := strings.LastIndex(line, clearCode)
 										if clearIndex >= 0 {
 											// What follows replaces what has been shown so far: whatever the
 											// window holds must be redrawn, however similar in shape
